@@ -29,6 +29,13 @@ Theorem C04_assign_increasing : forall c, increasing_from 0 (assign c) = true.
 Proof. exact assign_increasing. Qed.
 Print Assumptions C04_assign_increasing.
 
+(* every handle requested by attribute_handle<> / attribute_handles<> (0 = none) is the handle assigned;
+   together with C04_handles_partial: handle_by_index honours the fixed handles *)
+Theorem C04_fixed_handles_honoured :
+  forall c, wf c -> no_includes c -> Forall2 (fun r h => r = 0 \/ h = r) (requests c) (assign c).
+Proof. exact fixed_handles_honoured. Qed.
+Print Assumptions C04_fixed_handles_honoured.
+
 Theorem C04_handles_refuted : ~ C04_handles_full.
 Proof.
   intros H. specialize (H cfg_includes). assert (W : wf cfg_includes) by (vm_compute; reflexivity).
